@@ -29,37 +29,7 @@ TP = "huginn_net_tcp::tcp_process::"
 
 
 def fold(t):
-    """Constant-fold an integer term; None if not constant."""
-    t = T.strip(t)
-    if t[0] == "const":
-        v = t[1]
-        if isinstance(v, bool):
-            return None
-        if isinstance(v, int):
-            return v
-        if isinstance(v, (bytes, bytearray)) and len(v) <= 8:
-            return int.from_bytes(v, "little")
-        return None
-    if t[0] == "binop":
-        a, b = fold(t[2]), fold(t[3])
-        if a is None or b is None:
-            return None
-        op = t[1]
-        if op == "BitOr":
-            return a | b
-        if op == "BitAnd":
-            return a & b
-        if op == "BitXor":
-            return a ^ b
-        if op.startswith("Add"):
-            return a + b
-        if op.startswith("Sub"):
-            return a - b
-        if op == "Shl":
-            return a << b
-    if t[0] == "cast":
-        return fold(t[2])
-    return None
+    return T.fold_int(t)
 
 
 def subject(t):
